@@ -40,6 +40,10 @@ pub fn run(cases_path: &str, report_path: &str, _opts: &[String]) {
             strlit_case(&mut rep, ci, case, &bytes);
             continue;
         }
+        if let Some(part) = case["literal"].as_str() {
+            literal_case(&mut rep, ci, case, part, &bytes);
+            continue;
+        }
         let ideal: Vec<(usize, usize)> = case["ideal"].as_array().unwrap().iter().map(|t| (t[0].as_u64().unwrap() as usize, t[1].as_u64().unwrap() as usize)).collect();
         let mech: Vec<(usize, usize)> = case["mech"].as_array().unwrap().iter().map(|t| (t[0].as_u64().unwrap() as usize, t[1].as_u64().unwrap() as usize)).collect();
         if ideal.len() >= 2 { rep.nontrivial += 1; }
@@ -87,6 +91,68 @@ fn strlit_case(rep: &mut Report, ci: usize, case: &Value, bytes: &[u8]) {
         crate::observe::Outcome::Done((Ok(p), _)) => rep.fail("strlit:not-a-string", json!({"case_index": ci, "case": case, "observed": format!("{:?}", p)})),
         crate::observe::Outcome::Done((Err(e), _)) => {
             if ok { rep.fail(&format!("strlit:rejected:{}", which()), json!({"case_index": ci, "case": case, "text": String::from_utf8_lossy(&text), "observed": crate::observe::err_json(&e)})); }
+        }
+    }
+}
+
+/// spec/Literals.tla: hex strings (after `<`), names (after `/`), number tokens; the spec's Ref gives class, value and end
+fn literal_case(rep: &mut Report, ci: usize, case: &Value, part: &str, bytes: &[u8]) {
+    use crate::observe::{guarded, Outcome};
+    use pdf::object::NoResolve;
+    use pdf::parser::{parse_with_lexer, Lexer, ParseFlags};
+    use pdf::primitive::Primitive;
+    let ideal = &case["ideal"];
+    let k = ideal["k"].as_str().unwrap_or("");
+    let want: Vec<u8> = ideal["val"].as_array().map(|a| a.iter().map(|b| b.as_u64().unwrap() as u8).collect()).unwrap_or_default();
+    let want_end = ideal["end"].as_u64().unwrap_or(0) as usize;
+    let text: Vec<u8> = match part { "hex" => [b"<".as_slice(), bytes].concat(), "name" => [b"/".as_slice(), bytes, b" "].concat(), _ => [bytes, b" ".as_slice()].concat() };
+    let out = guarded(|| { let mut lx = Lexer::new(&text); let r = parse_with_lexer(&mut lx, &NoResolve, ParseFlags::ANY); (r, lx.get_pos()) });
+    let (res, pos) = match out {
+        Outcome::Panic(p) => { rep.fail(&format!("literal:{}:panic:{}", part, p.sym), json!({"case_index": ci, "case": case, "text": String::from_utf8_lossy(&text), "observed": crate::observe::panic_json(&p)})); return; }
+        Outcome::Done(x) => x,
+    };
+    let fail = |rep: &mut Report, what: &str, obs: Value| rep.fail(&format!("literal:{}:{}", part, what), json!({"case_index": ci, "case": case, "text": String::from_utf8_lossy(&text), "observed": obs}));
+    match part {
+        "hex" => {
+            if bytes.len() >= 3 && k == "ok" { rep.nontrivial += 1; }
+            match (k, res) {
+                ("ok", Ok(Primitive::String(s))) => {
+                    if s.as_bytes() != &want[..] { fail(rep, "value", json!(s.as_bytes())); }
+                    else if pos != want_end { fail(rep, "consumed", json!({"expected": want_end, "observed": pos})); }
+                }
+                ("ok", Ok(p)) => fail(rep, "not-a-string", json!(format!("{:?}", p))),
+                ("ok", Err(e)) => fail(rep, if bytes.contains(&0) { "rejected:nul-whitespace" } else { "rejected" }, crate::observe::err_json(&e)),
+                (_, Ok(p)) => fail(rep, "accepted-invalid", json!(format!("{:?}", p))),
+                (_, Err(_)) => {}
+            }
+        }
+        "name" => {
+            if k != "ok" || std::str::from_utf8(&want).is_err() { return; }      // `#` without two hex digits / names that are not UTF-8: only "no panic" (DESIGN 5.21)
+            if bytes.contains(&35) { rep.nontrivial += 1; }
+            match res {
+                Ok(Primitive::Name(n)) => {
+                    if n.as_bytes() != &want[..] { fail(rep, "value", json!(n.as_bytes())); }
+                    else if pos != want_end { fail(rep, "consumed", json!({"expected": want_end, "observed": pos})); }
+                }
+                Ok(p) => fail(rep, "not-a-name", json!(format!("{:?}", p))),
+                Err(e) => fail(rep, "rejected", crate::observe::err_json(&e)),
+            }
+        }
+        _ => {
+            if k == "other" { return; }                                             // not a number by the standard: only "no panic"
+            rep.nontrivial += 1;
+            let t = String::from_utf8_lossy(bytes).to_string();
+            let norm = { let u = t.trim_start_matches('+'); let u = if u.starts_with('.') { format!("0{}", u) } else if u.starts_with("-.") { format!("-0{}", &u[1..]) } else { u.to_string() }; if u.ends_with('.') { format!("{}0", u) } else { u } };
+            let v: f64 = norm.parse().expect("reference number");
+            match (k, res) {
+                ("int", Ok(Primitive::Integer(i))) => { if i as f64 != v { fail(rep, "int-value", json!(i)); } }
+                ("int", Ok(Primitive::Number(x))) if v.abs() > i32::MAX as f64 => { if (x as f64 - v).abs() > v.abs() * 1e-6 { fail(rep, "int-value", json!(x)); } }
+                ("real", Ok(Primitive::Number(x))) => { if x != v as f32 { fail(rep, "real-value", json!(x)); } }
+                ("real", Ok(Primitive::Integer(i))) => fail(rep, "real-read-as-integer", json!(i)),
+                (_, Ok(p)) => fail(rep, "wrong-kind", json!(format!("{:?}", p))),
+                (_, Err(e)) => fail(rep, "rejected", crate::observe::err_json(&e)),
+            }
+            if pos != bytes.len() && pos != bytes.len() + 1 { fail(rep, "consumed", json!({"expected": bytes.len(), "observed": pos})); }
         }
     }
 }
